@@ -234,6 +234,29 @@ def _with_input_fault(sut, call, items, k):
     return ("input_fault", "swallowed")
 
 
+def _start_pending(t, spec):
+    """A crawl-batch request advanced `steps` yield points (every loop iteration a yield point)
+    and left unfinished: the caller (Hyphe cancels jobs this way) goes on with something else."""
+    from traph.traph_iterator_state import TraphIteratorState
+
+    data = {}
+    for s_, ts in spec["data"]:
+        data[arg(s_)] = [arg(x) for x in ts]
+    saved = TraphIteratorState.should_yield
+    TraphIteratorState.should_yield = lambda self, yield_frequency=1000: True
+    try:
+        g = t.index_batch_crawl_iter(data, 1)
+        try:
+            for _ in range(spec.get("steps", 1)):
+                if next(g).done:
+                    break
+        except StopIteration:
+            pass
+    finally:
+        TraphIteratorState.should_yield = saved
+    return g
+
+
 def exec_sut(sut, op, refs, model):
     """Run one write/restart op on the real index; returns canonical outcome.
     Only TraphException counts as a refusal; anything else propagates."""
@@ -309,7 +332,10 @@ def exec_sut(sut, op, refs, model):
         if k == "clear":
             d = lrugen.RULES[op["default"]] if op.get("default") else None
             rules = {dec(a): lrugen.RULES[n] for a, n in op["rules"]} if op.get("rules") is not None else None
+            g = _start_pending(t, op["pending"]) if op.get("pending") else None
             sut.clear(d, rules)
+            if g is not None:
+                g.close()  # the caller drops the unfinished request only now
             return ("ok", None)
     except TraphException:
         return ("refused",)
